@@ -101,7 +101,7 @@ def check(ctx):
         if kind != "return":
             return None
         fin = F("self._deadline == math.inf")
-        if (fin[0], False) in facts and len(set(st) & {"arm", "cancel"}) != 1:
+        if fin not in facts and len(set(st) & {"arm", "cancel"}) != 1:
             return f"with a finite deadline _timeout() performs {sorted(st)}: exactly one of cancel / re-arm is required (a missed branch loses the timeout)"
         if fin in facts and st:
             return "something is armed or cancelled for an infinite deadline"
